@@ -40,8 +40,11 @@ for d in sorted(glob.glob(f"{V}/neutral/*/meta.json")):
     p = os.path.join(os.path.dirname(d), 'patch.diff')
     files = sorted(set(re.findall(r'^\+\+\+ b/(\S+)', open(p).read(), re.M)))
     ran = [c for c in ch if not c.startswith('_')]
-    noisy = [f"{c} (exit {ch[c]['exit']}): {ch[c]['witness'][:110]}" for c in ran if ch[c]['exit'] != 0]
-    nrows.append((m['id'], ', '.join(files), ch.get('_suite', '?'), f"{len(ran) - len(noisy)}/{len(ran)}", '; '.join(noisy).replace('|', '/') or '-',
+    base_same = [c for c in ran if ch[c]['exit'] != 0 and ch[c].get('unpatched_base_exit') == ch[c]['exit']]
+    noisy = [f"{c} (exit {ch[c]['exit']}): {ch[c]['witness'][:110]}" for c in ran if ch[c]['exit'] != 0 and c not in base_same]
+    if base_same:
+        noisy.append(f"[{', '.join(base_same)}: exit 1 with AND without the change on the pinned older commit]")
+    nrows.append((m['id'], ', '.join(files), ch.get('_suite', '?'), f"{len(ran) - len([c for c in ran if ch[c]['exit'] != 0 and c not in base_same])}/{len(ran)}", '; '.join(noisy).replace('|', '/') or '-',
                   m.get('disposition', '-')))
 if nrows:
     nout = ["# Property-preserving changes and the checks' silence", "",
